@@ -433,6 +433,9 @@ def run(ctx):
     wm = cached_witness(ctx, "workflow-map", workflow_map_witness)
     report_witness(r5, "src/gwf/workflow.py::Workflow.map::witnesses", "src/gwf/workflow.py:1", wm,
                    "one target per item (scalar / sequence / mapping items), names <template or given name>_<index> or from the naming function")
+    from .evalhelpers import one_shot_witness
+    report_witness(r5, "src/gwf/workflow.py::one-shot-iterable::map", "src/gwf/workflow.py:1", cached_witness(ctx, "one-shot", one_shot_witness),
+                   "map() over a generator of items creates one target per item, like over a list", select=lambda d: "Workflow.map" in d)
     if not wm[1]:
         ctx.reconcile([r5], lambda c: "workflow.py::Workflow.map" in c, (wm[0], [], wm[2]), "src/gwf/workflow.py::Workflow.map", "src/gwf/workflow.py:1")
     if not ww[1]:
